@@ -32,6 +32,43 @@ type Job struct {
 	ShrinkBudgetS float64     `json:"shrink_budget_s"`
 	ShrinkMaxRuns int         `json:"shrink_max_runs"`
 	Variant       string      `json:"variant"`
+	// Known: the listed known findings of this property (known_findings.json). A run whose
+	// violation matches one does not count towards max_viol, and after three full records
+	// per finding only a light record is written.
+	Known []KnownMatch `json:"known,omitempty"`
+}
+
+type KnownMatch struct {
+	ID     string           `json:"id"`
+	Oracle string           `json:"oracle"`
+	Mode   string           `json:"mode"`
+	Knobs  map[string]int64 `json:"knobs"`
+	Regex  bool             `json:"regex"` // has a message_regex: always judged by the driver
+}
+
+func (j *Job) knownFor(c *sim.Case, vs []sim.Violation) *KnownMatch {
+	for _, v := range vs {
+		if v.Prop != j.Property {
+			continue
+		}
+		for i := range j.Known {
+			k := &j.Known[i]
+			if k.Regex || (k.Oracle != "" && k.Oracle != v.Oracle) || (k.Mode != "" && k.Mode != c.Mode) {
+				continue
+			}
+			ok := true
+			for kn, kv := range k.Knobs {
+				if got, has := c.Knobs[kn]; !has || got != kv {
+					ok = false
+				}
+			}
+			if ok {
+				return k
+			}
+		}
+		return nil // the first violation of the property decides, as in the driver
+	}
+	return nil
 }
 
 // ReplayFile is the replay file format (DESIGN.md section 6).
@@ -160,6 +197,7 @@ func doExplore(t *testing.T, job *Job) {
 	start := time.Now()
 	ck := newChunk()
 	nviol := 0
+	knownSeen := map[string]int{}
 	stride := job.Stride
 	if stride < 1 {
 		stride = 1
@@ -270,8 +308,17 @@ func doExplore(t *testing.T, job *Job) {
 			emit(map[string]any{"t": "harness_error", "index": idx, "run_seed": seed, "error": res.HarnessError, "case": c, "tape": rec})
 		}
 		if len(res.Violations) > 0 {
-			nviol++
-			emit(map[string]any{"t": "viol", "index": idx, "run_seed": seed, "violations": res.Violations, "case": c, "tape": rec, "trace_hash": res.TraceHash, "steps": res.Steps})
+			if k := job.knownFor(c, res.Violations); k != nil {
+				knownSeen[k.ID]++
+				if knownSeen[k.ID] <= 3 {
+					emit(map[string]any{"t": "viol", "index": idx, "run_seed": seed, "violations": res.Violations, "case": c, "tape": rec, "trace_hash": res.TraceHash, "steps": res.Steps})
+				} else {
+					emit(map[string]any{"t": "viol_known", "index": idx, "id": k.ID})
+				}
+			} else {
+				nviol++
+				emit(map[string]any{"t": "viol", "index": idx, "run_seed": seed, "violations": res.Violations, "case": c, "tape": rec, "trace_hash": res.TraceHash, "steps": res.Steps})
+			}
 		}
 		if res.Dirty {
 			flush(idx + stride)
